@@ -30,7 +30,7 @@ TLClose == Ev("lclose") /\ (LocalClose \/ (rwcClosed /\ Stutter))
 TCnReq  == Ev("cnreq") /\ CloseNotify
 TCreate == Ev("cn.create") /\ cn # "nil" /\ (Trace[l].gone <=> gone) /\ Stutter
 TSwitch == Ev("sr.switch") /\ srPending /\ RdEnter
-TMsg    == Ev("serve.msg") /\ (RdRawData \/ RdPipeData) /\ rd' = "handler"
+TMsg    == Ev("serve.msg") /\ (RdRawData \/ RdPipeData) /\ rd' \in {"handler", "handler_p"}
 TRet    == Ev("serve.ret") /\ HandlerReturn
 TExit   == Ev("serve.exit") /\ RdFinish
 TCpEnd  == Ev("cp.end") /\ CpNotify
@@ -41,6 +41,7 @@ Silent  == /\ l <= Len(Trace) /\ UNCHANGED l
            /\ \/ (~srPending /\ RdEnter)
               \/ ((RdRawData \/ RdPipeData) /\ rd' = "failing")
               \/ RdRawEnd \/ RdPipeEnd \/ RdFail          \* the loop closes the transport; finish() comes later
+              \/ HandlerPanic                             \* recovered: no serve.ret, the exit path follows
               \/ CpRead \/ CpEnd \/ CpWriteFails           \* pw.CloseWithError; the notification comes later
               \/ (gone /\ (CpNotified \/ RdFinished))       \* a notification that finds the flag set logs nothing
 TNext == TReset \/ TFeed \/ TEnd \/ TLClose \/ TCnReq \/ TCreate \/ TSwitch \/ TMsg \/ TRet \/ TExit \/ TCpEnd \/ TGone \/ Silent
